@@ -17,7 +17,7 @@ LEVEL_TEXT = ("Exceptional postconditions proved: TimeKeeper.__init__ raises Sys
               "makes no output event. The coverage check of forcing_steps (slice), the release constructor's refusal when no row lies in the window, clean_position's refusal of rows without "
               "position, read_release_file's SystemExit for unreadable files, load_module's refusal of an unknown module and configure_v2's KeyError for each missing mandatory section "
               "are proved as well; configure() turns a missing or unparsable file, an unknown version and that KeyError into SystemExit(3); a grid file that cannot be opened and a forcing "
-              "pattern without a match stop the constructors; scan_file_times is proved to read every file in order for fixed file/frame-count shapes, forcing_steps to build the step tables. "
+              "pattern without a match stop the constructors; scan_file_times is proved to read every file in order, every frame of it, for ANY number of files (induction over the file loop) and as a whole function for fixed file/frame-count shapes, forcing_steps to build the step tables. "
               "NOT proved (bounded fault injection): the file-reading loop for an arbitrary number of files, the refusal of a continuous release without any tick in the window, "
               "the real pandas/netCDF4/yaml behaviour behind the assumed contracts.")
 LEVEL_NOTE = "every fault kind the property lists has a proved exceptional postcondition on the function that refuses it (library calls under assumed contracts); bounded only: scan loop beyond the fixed shapes, continuous-release refusal, real library behaviour (25 single faults x 8 base scenarios injected on the real start-up path)"
